@@ -45,6 +45,7 @@ pub fn exec(case: &Value) -> Vec<Value> {
         _ => return vec![json!({"st": "err:new", "case": case})],
     };
     let mut groupings: Vec<Grouping> = vec![];
+    let mut means: Vec<bool> = vec![];
     let mut lengths: Vec<usize> = vec![];
     let mut items: Vec<TrainItem> = vec![];
     let mut idlists: Vec<Vec<u32>> = vec![];
@@ -53,7 +54,15 @@ pub fn exec(case: &Value) -> Vec<Value> {
             Ok(Ok(tk)) => {
                 if let TokenizationInfo::TokenGroups(m) = &tk.info {
                     if let Some(g) = m.values().next() {
-                        groupings.push(g.clone());
+                        // `mixed`: the batch mixes groupings with sum and with mean aggregation (it starts with the
+                        // opposite of the configured one and alternates)
+                        let agg = if get_bool(case, "mixed") {
+                            if (k % 2 == 0) == mean { GroupAggregation::Sum } else { GroupAggregation::Mean }
+                        } else {
+                            g.1
+                        };
+                        means.push(agg == GroupAggregation::Mean);
+                        groupings.push((g.0.clone(), agg));
                     }
                 }
                 lengths.push(tk.token_ids.len());
@@ -70,7 +79,7 @@ pub fn exec(case: &Value) -> Vec<Value> {
         }
     }
     let refs: Vec<&Grouping> = groupings.iter().collect();
-    let mut rec = json!({"st": st, "mean": mean, "texts": texts, "lengths": lengths, "pad_id": tok.pad_token_id(),
+    let mut rec = json!({"st": st, "mean": mean, "means": means, "texts": texts, "lengths": lengths, "pad_id": tok.pad_token_id(),
         "groups": groupings.iter().map(|(g, _)| g.iter().map(groups_json).collect::<Vec<_>>()).collect::<Vec<_>>(), "case": case});
     if rec["st"] == "ok" {
         match guard(|| token_groups_to_sparse_coo_matrix(&refs, &lengths)) {
@@ -111,7 +120,7 @@ pub fn gen(seed: u64, n: usize) -> Vec<Value> {
         .map(|_| {
             let k = rng.random_range(1..=4);
             let texts: Vec<String> = (0..k).map(|_| (0..rng.random_range(0..=8)).map(|_| pool[rng.random_range(0..pool.len())]).collect()).collect();
-            json!({"texts": texts, "g": rng.random_bool(0.5), "groups": if rng.random_bool(0.5) { "bytes" } else { "code_points" },
+            json!({"texts": texts, "mixed": rng.random_bool(0.3), "g": rng.random_bool(0.5), "groups": if rng.random_bool(0.5) { "bytes" } else { "code_points" },
                    "agg": if rng.random_bool(0.5) { "mean" } else { "sum" }, "prefix": rng.random_bool(0.5), "suffix": rng.random_bool(0.5)})
         })
         .collect()
